@@ -52,6 +52,9 @@ def run(c):
             e = bad[0]
             tag = h.get("tag", "")
             where = "|".join(tag.split("|")[1:3]) if "|" in tag else "none"
+            arm = [a for a in evs[:evs.index(e)] if a.get("ev") == "Arm"]
+            if where == "none" and arm:   # life-cycle histories inject a fault by call number only
+                where = "armed:" + arm[-1].get("note", "").strip()
             stores = {s["Name"]: s for s in h.get("program", {}).get("stores", [])}
             place = stores.get(e.get("s"), {}).get("Placement", "?")
             note = e.get("note", "")
